@@ -70,7 +70,7 @@ deriving Repr, Inhabited
 
 /-- `sorted(records, key=lambda r: r.prefix)` (stable) -/
 def sortRecords (recs : List Record) : List Record :=
-  recs.mergeSort (fun a b => strLe a.pfx b.pfx)
+  isort (fun a b => strLe a.pfx b.pfx) recs
 
 namespace Conv
 
